@@ -19,7 +19,9 @@ for d in sorted(glob.glob(os.path.join(HERE, 'seeded', '*'))):
     m = json.load(open(mp))
     r = res.get(m['name'])
     by = m.get('caught_by_check') or m['property']
-    if r:
+    if m.get('expect') == 'out_of_scope':
+        out = 'out of scope, see scope_note in meta.json (breaks a property that is not claimed)'
+    elif r:
         out = '{} - {} VIOLATION lines, replay reproduces on the patched tree: {}, on /repo: {}'.format(
             r['result'].lower(), r.get('violations'),
             'yes' if r.get('replay_on_mutant_exit') == 1 else 'no',
